@@ -15,7 +15,9 @@ META = dict(
               "(0,2): limit / stop-limit orders over 2 bars with volumes {10, 127.83333333} and market / stop orders "
               "over 1 bar with volumes {10, 127.83333333, 100000}, amount from {3, 1, 1000} (slippage is cubic in amount "
               "and price otherwise), prices symbolic; percentage fee with minimum; completeness clause with ample funds "
-              "(1e15 of every symbol) under infinite liquidity, bar volumes from {0, 1000}",
+              "(1e15 of every symbol) under infinite liquidity, bar volumes from {0, 1000}; completeness after a long "
+              "history: 2 pairs, symbolic traversal counter of the open-order container, bars of the other pair / "
+              "listings between acceptance and the completing bar (concrete prices)",
         thorough="adds VolumeShareImpact at (8,2) and with volumes {0, 1, 33.33333333, 100000}, fee scheme none, "
                  "precisions (2,0),(8,8), 3 bars"),
     stubs=[s for s in hist.BASE_STUBS if "max/min" not in s] + ["max/min are NOT merged in this check (plain forks keep "
@@ -134,11 +136,49 @@ def one_order(ctx, kind="limit", side="buy", nbars=2, ample=False, **cfg):
                 ctx.prove(Iff_(reach, cur.amount_filled == amount),
                           "C04 a stop order is filled by the next bar exactly when that bar's range reaches its stop")
         prev = cur
-    for lab in ("an order traded", "a limit order traded at a slipped price", "a stop was triggered inside the bar",
-                "an order was partially filled"):
-        if ample or kind not in ("limit", "stop_limit") and "limit" in lab or kind not in ("stop", "stop_limit") and \
-                "stop" in lab or w.liq == "inf" and "partially" in lab:
-            ctx.cover(lab)
+
+
+def long_history(ctx, kind="limit", side="buy"):
+    """Completion guarantees however long the exchange has been running and whatever else trades: two pairs, the
+    open-order container's traversal counter is symbolic (periodic re-indexing included), bars of the OTHER pair and
+    listings happen between acceptance and the bar that must complete the order.  Prices are concrete."""
+    from .exch import run
+    init = {"USD": Decimal(10 ** 9), "BTC": Decimal(10 ** 6), "ETH": Decimal(10 ** 6)}
+    w = World(ctx, props=(), npairs=2, bp=8, qp=2, fee="pctmin", namounts=2, init=init)
+    # (amounts of at least one whole base unit: fills whose quote amount rounds to zero are ignored by design)
+    w.amounts = [Decimal("2.5"), Decimal(1000)]
+    FLAT = ("100", "101", "99", "100")
+    w.feed_bar("b0", pair_idx=0, ohlc=FLAT)
+    w.feed_bar("b0e", pair_idx=1, ohlc=FLAT)
+    sd = BUY if side == "buy" else SELL
+    price = None if kind == "market" else ("50" if (sd == BUY) == (kind == "limit") else "200")
+    oid = w.place("o1", kind=kind, side=sd, pair_idx=0, price=price)
+    if oid is None:
+        ctx.prove(False, "C04 (harness) an amply funded order is accepted")
+        return
+    w.e._order_mgr._orders._reindex_counter = ctx.int("reindex_counter", 0, 10 ** 9)
+    for n in range(2):
+        what = ctx.choice("traversal%d" % n, 3)
+        if what == 2:
+            run(w.e.get_open_orders())
+        elif what == 1:
+            w.feed_bar("t%d" % n, pair_idx=1, ohlc=FLAT)            # a bar of the other pair
+        else:
+            continue
+    amount = w.orders[oid]["amount"]
+    if kind == "market":
+        w.feed_bar("b1", pair_idx=0, ohlc=FLAT)
+        info = w.info(oid)
+        ctx.prove(And(info.amount_filled == amount, Not(info.is_open)),
+                  "C04 a market order is completely filled by the next bar")
+    else:
+        # limit buy at 50 / stop sell at 50: reached by a low of 10; limit sell / stop buy at 200: reached by 300
+        w.feed_bar("b1", pair_idx=0, ohlc=("100", "300", "10", "100"))
+        info = w.info(oid)
+        label = ("C04 a limit order is completely filled by the first bar whose range reaches its limit"
+                 if kind == "limit" else
+                 "C04 a stop order is filled by the next bar exactly when that bar's range reaches its stop")
+        ctx.prove(And(info.amount_filled == amount, Not(info.is_open)), label)
 
 
 def Iff_(a, b):
@@ -173,4 +213,6 @@ def jobs(tier):
             js.append(Job("completeness %s %s" % (kind, side), "one_order",
                           dict(kind=kind, side=side, nbars=2, ample=True, bp=8, qp=2, vols=["0", "1000"]),
                           validate_every=20, sample_every=50, prove_timeout=30000))
+            js.append(Job("completeness after a long history, other pair trading: %s %s" % (kind, side),
+                          "long_history", dict(kind=kind, side=side), validate_every=20, sample_every=50))
     return js
